@@ -14,7 +14,7 @@ RULE = ("seeded gen_coords runs over generated topologies (1-3 molecule types: s
         "(schedule signature, event-log digest)")
 ASSUMPTIONS = wa.ASSUMPTIONS
 REAL_VS_STUB = wa.REAL_VS_STUB
-PROBES = wa.PROBES + ["cwd_with_decoy_includes", "earlier_call_same_topology_paths", "user_grid", "start_option", "coords_supplied", "density_box", "build_file"]
+PROBES = wa.PROBES + ["cwd_with_decoy_includes", "earlier_call_same_topology_paths", "user_grid", "start_option", "coords_supplied", "density_box", "build_file", "include_in_ifdef_else"]
 PROFILE = {}
 
 
@@ -48,6 +48,9 @@ def gen_job(verif_seed, tier, index):
         if jobgen.add_pre_variant(job, g, "shorter"):
             job["cwd_decoy"] = job.pop("pre_spec")
             job.pop("pre_kind", None)
+    if (not job.get("pre_spec") and not job.get("cwd_decoy") and g.random() < 0.12
+            and len(job["spec"]["moltypes"]) >= 2 and job.get("coord_text") is None):
+        jobgen.add_cond_include(job, g)
     if job.get("coord_text") is None:
         if g.random() < 0.2:
             jobgen.add_user_grid(job, g)
@@ -62,6 +65,8 @@ def _tag(job, res):
         p["user_grid"] = 1
     if job["opts"].get("start"):
         p["start_option"] = 1
+    if job["spec"].get("cond_include"):
+        p["include_in_ifdef_else"] = 1
     if job.get("coord_text") is not None:
         p["coords_supplied"] = 1
     if job["opts"].get("density") is not None:
